@@ -399,7 +399,9 @@ def run(ctx: Ctx) -> int:
         ok = len(assigns) == 1 and isinstance(assigns[0].value, ast.Call) and call_leaf(assigns[0].value) == "_get_default_config_files"
     ctx.oblige("C04.b", ok, loop, "default config files are applied in the order returned by _get_default_config_files" if ok else "the default-config loop no longer iterates the list from _get_default_config_files as is (reversed/sorted/filtered?)", fn=gd)
     gdf = ctx.func("_core:ArgumentParser._get_default_config_files")
-    reorder = [c for c in calls_in(gdf) if call_leaf(c) in ("reversed", "reverse", "sort") or (call_leaf(c) == "sorted" and not any(call_leaf(x) == "glob" for x in calls_in(c)))]
+    # sorted() may order the matches of ONE glob pattern (its argument is the glob call itself); sorting anything wider -
+    # a generator over several patterns, the combined list - replaces the listed order by path order
+    reorder = [c for c in calls_in(gdf) if call_leaf(c) in ("reversed", "reverse", "sort") or (call_leaf(c) == "sorted" and not (c.args and isinstance(c.args[0], ast.Call) and call_leaf(c.args[0]) == "glob"))]
     ctx.oblige("C04.b", not reorder, reorder[0] if reorder else gdf, "no re-ordering of the combined default config file list (sorted() only per glob pattern)" if not reorder else f"combined default-config list is re-ordered: {src(reorder[0])}", fn=gdf, construct="no reorder of combined list")
     floops = [n for n in walk_local(gdf) if isinstance(n, ast.For) and dotted(n.iter) is not None and dotted(n.iter).endswith("default_config_files")]
     ctx.oblige("C04.b", len(floops) >= 2, gdf, "patterns are iterated in listed order (direct iteration of default_config_files)" if len(floops) >= 2 else "pattern loops over default_config_files changed shape", fn=gdf, construct="pattern loops in listed order")
